@@ -41,6 +41,11 @@ type c08Case struct {
 	// AddAltBetween: after the first verified render an alternative part is added, then the message is
 	// rendered again (the signature must follow the message).
 	AddAltBetween bool `json:"add_alt_between,omitempty"`
+	// ReSign: after the first verified render the caller configures the signer again on the same Msg -
+	// "other-key" (the other key type), "toggle-intermediate" (same key type, with the intermediate
+	// certificate if there was none and without it if there was one), "same" (the very same key pair) -
+	// and renders again; the second rendering must verify under what was configured LAST.
+	ReSign string `json:"re_sign,omitempty"`
 }
 
 var (
@@ -93,20 +98,22 @@ func c08Run(c c08Case) []*core.Violation {
 		m.SetGenHeaderPreformatted("X-Multi-Line", "first line\r\n second line\r\n\tthird line")
 	}
 	chain := signingChainIssuer(c.Key, c.Intermediate, c.Issuer)
-	if c.Via == "tlscert" || c.Via == "tlscert-fullchain" {
-		tc := &tls.Certificate{Certificate: [][]byte{chain.Leaf.Raw}, PrivateKey: chain.Key, Leaf: chain.Leaf}
-		if chain.Intermediate != nil {
-			tc.Certificate = append(tc.Certificate, chain.Intermediate.Raw)
-			if c.Via == "tlscert-fullchain" {
-				// a "fullchain" key pair: leaf, issuing CA, root - the issuing CA is the intermediate
-				tc.Certificate = append(tc.Certificate, chain.Root.Raw)
+	curKey := c.Key
+	configure := func(chain *tlsutil.SigningChain) error {
+		if c.Via == "tlscert" || c.Via == "tlscert-fullchain" {
+			tc := &tls.Certificate{Certificate: [][]byte{chain.Leaf.Raw}, PrivateKey: chain.Key, Leaf: chain.Leaf}
+			if chain.Intermediate != nil {
+				tc.Certificate = append(tc.Certificate, chain.Intermediate.Raw)
+				if c.Via == "tlscert-fullchain" {
+					// a "fullchain" key pair: leaf, issuing CA, root - the issuing CA is the intermediate
+					tc.Certificate = append(tc.Certificate, chain.Root.Raw)
+				}
 			}
+			return m.SignWithTLSCertificate(tc)
 		}
-		err = m.SignWithTLSCertificate(tc)
-	} else {
-		err = m.SignWithKeypair(chain.Key, chain.Leaf, chain.Intermediate)
+		return m.SignWithKeypair(chain.Key, chain.Leaf, chain.Intermediate)
 	}
-	if err != nil {
+	if err = configure(chain); err != nil {
 		return []*core.Violation{core.V("sign-setup", "%v", err)}
 	}
 	var vs []*core.Violation
@@ -153,7 +160,7 @@ func c08Run(c c08Case) []*core.Violation {
 			if strings.Contains(verr.Error(), "message-digest attribute") {
 				key = "digest-mismatch"
 			}
-			vs = append(vs, core.V(key, "%s: %v (key %s, shape p%d/e%d/a%d; signed entity starts %q)", where, verr, c.Key, np, ne, na, clipS(string(entity.Raw))))
+			vs = append(vs, core.V(key, "%s: %v (key %s, shape p%d/e%d/a%d; signed entity starts %q)", where, verr, curKey, np, ne, na, clipS(string(entity.Raw))))
 			continue
 		}
 		if !res.Signer.Equal(chain.Leaf) {
@@ -168,8 +175,8 @@ func c08Run(c c08Case) []*core.Violation {
 		if hasInter != (chain.Intermediate != nil) || len(res.Certificates) != map[bool]int{false: 1, true: 2}[chain.Intermediate != nil] {
 			vs = append(vs, core.V("certificates", "%s: %d certificates carried, intermediate present=%v, intermediate given=%v", where, len(res.Certificates), hasInter, chain.Intermediate != nil))
 		}
-		if res.KeyType != c.Key {
-			vs = append(vs, core.V("key-type", "%s: verified with %s, expected %s", where, res.KeyType, c.Key))
+		if res.KeyType != curKey {
+			vs = append(vs, core.V("key-type", "%s: verified with %s, expected %s", where, res.KeyType, curKey))
 		}
 		// the signed entity is itself a well-formed entity carrying the model's leaves
 		inner := mimeread.Parse(entity.Raw)
@@ -182,6 +189,23 @@ func c08Run(c c08Case) []*core.Violation {
 				m.AddAlternativeString("text/html", string(extra))
 				b.Leaves = append(b.Leaves[:np:np], append([]gen.Leaf{{Kind: "part", MediaType: "text/html", Charset: "UTF-8", CTE: spec.Encoding, Content: extra}}, b.Leaves[np:]...)...)
 				np++
+			}
+			if c.ReSign != "" {
+				inter, issuer := c.Intermediate, c.Issuer
+				switch c.ReSign {
+				case "other-key":
+					curKey = map[string]string{"rsa": "ecdsa", "ecdsa": "rsa"}[c.Key]
+					issuer = strings.TrimSuffix(issuer, "+sameserial")
+				case "toggle-intermediate":
+					inter = !inter
+					issuer = strings.TrimSuffix(issuer, "+sameserial")
+				}
+				chain = signingChainIssuer(curKey, inter, issuer)
+				if err := configure(chain); err != nil {
+					return append(vs, core.V("sign-setup", "configuring the signer again (%s): %v", c.ReSign, err))
+				}
+				where = "render 1"
+				rec.Class("signer-configured-again:" + c.ReSign)
 			}
 		} else if !c.AddAltBetween && !bytes.Equal(firstEntity, entity.Raw) {
 			vs = append(vs, core.V("signed-entity-changed", "the signed entity differs between the first and the second render"))
@@ -308,12 +332,15 @@ func c08Gen(t *rapid.T) c08Case {
 	if rapid.IntRange(0, 3).Draw(t, "failfirst") == 0 {
 		c.FailFirst = rapid.SampledFrom([]int{1, 50, 100, 300, 500, 900, 1500, 2500}).Draw(t, "failoffset")
 	}
+	if rapid.IntRange(0, 4).Draw(t, "resign") == 0 {
+		c.ReSign = rapid.SampledFrom([]string{"other-key", "toggle-intermediate", "same"}).Draw(t, "resignkind")
+	}
 	return c
 }
 
 func TestC08(t *testing.T) {
 	rec := core.Rec("C08")
-	rec.Rule = "rapid draws message programs (0..3 parts, 0..2 embeds, 0..2 attachments in every combination incl. body-less and file-only messages; QP/base64/8bit per message, part and file; part and file descriptions incl. long ones; long file names; generic headers incl. long and non-ASCII values, a generic header without values, preformatted and multi-line preformatted headers, To/Cc *IgnoreInvalid lists that end up empty; contents in canonical CRLF form; chunked producers), signs them with an ECDSA P-256 or RSA-2048 key whose certificate was issued by a P-256, P-384 or P-521 CA (SHA-256/384/512 on the certificate), with or without an intermediate certificate (one time in four with the same serial number as the signer certificate, which is legal: serial numbers are unique per issuer), through SignWithKeypair or SignWithTLSCertificate (also with a full chain leaf + issuing CA + root, of which the issuing CA is the intermediate to carry), optionally with a middleware that rewrites the first body part or the subject on every render, and renders each message twice (one case in four after a first render into a sink that fails at a drawn offset; one in four with an alternative part added between the two renders). " +
+	rec.Rule = "rapid draws message programs (0..3 parts, 0..2 embeds, 0..2 attachments in every combination incl. body-less and file-only messages; QP/base64/8bit per message, part and file; part and file descriptions incl. long ones; long file names; generic headers incl. long and non-ASCII values, a generic header without values, preformatted and multi-line preformatted headers, To/Cc *IgnoreInvalid lists that end up empty; contents in canonical CRLF form; chunked producers), signs them with an ECDSA P-256 or RSA-2048 key whose certificate was issued by a P-256, P-384 or P-521 CA (SHA-256/384/512 on the certificate), with or without an intermediate certificate (one time in four with the same serial number as the signer certificate, which is legal: serial numbers are unique per issuer), through SignWithKeypair or SignWithTLSCertificate (also with a full chain leaf + issuing CA + root, of which the issuing CA is the intermediate to carry), optionally with a middleware that rewrites the first body part or the subject on every render, and renders each message twice (one case in four after a first render into a sink that fails at a drawn offset; one in four with an alternative part added between the two renders; one in five with the signer configured again between the two renders - the other key type, the intermediate certificate added or dropped, or the same key pair - the second rendering being judged against what was configured last). " +
 		"Oracle (own MIME reader + own CMS SignedData verifier on encoding/asn1 and crypto/*): top level multipart/signed with protocol=application/pkcs7-signature and micalg=sha-256 and exactly two parts; SHA-256 of the first part exactly as emitted between the delimiters == the message-digest attribute; signed attributes in DER SET order with content-type id-data; signature valid under the carried signer certificate, which is the one given; intermediate carried iff given; the signed entity's leaves match the model; the second render verifies too and carries the same signed entity. " +
 		"TestC08Conc: 2..8 goroutines each build, sign (one shared *tls.Certificate through SignWithTLSCertificate, or the shared key pair) and render 2..12 fresh messages at the same time (12 such cases per process in quick, 150 in thorough); every output must be a verifying multipart/signed message of its own content. Non-trivial: every case (each exercises the double render). Distinct by (shape key, key type, intermediate, API, header features)."
 	rec.Assumptions = []string{"contents are generated in canonical CRLF form (the property's domain)", "certificate chain validation up to a trust anchor is not part of the property"}
